@@ -8,7 +8,8 @@ ops:
   invperm  + "row_perm","col_perm","sizes"    → {"dense"} | {"err":"singular"}
   pinv     (perm, then invperm with its result) → {"dense"} | {"err":"singular"|"ValueError"|"AssertionError"}
 Whenever an inverse is returned the driver re-checks A·X = I and X·A = I exactly over the
-rationals and answers {"err":"model-failure"} otherwise (X·A = I is also a theorem, Props.lean).
+rationals and answers {"err":"model-failure"} otherwise.  This is redundancy: the identities are
+theorems (`invertDiagonalBlocks_correct`, `invertPermuted_correct` in Props.lean).
 -/
 import PorepyVerif.Common.Wire
 import PorepyVerif.C37.Model
